@@ -23,7 +23,7 @@ REQUIRED = {"residues_checked": 200, "block_interactions_checked": 200, "multi_r
 
 
 def plan(tier, seed):
-    n = 1200 if tier == "quick" else 30000
+    n = 3600 if tier == "quick" else 30000
     cids = [["main", i] for i in range(n)]
     cids += [["mods", i] for i in range(n // 12)]
     cids += [["dup", i] for i in range(n // 20)]
